@@ -34,7 +34,7 @@ class Prop(BaseProp):
         c.recursive = rng.random() < 0.85
         special = idx % 3 == 0
         # an explicitly given prefix, the empty one included, names the top directory
-        prefix = rng.choice([None, None, "Pfx", "", "A b", "p.q"])
+        prefix = rng.choice([None, None, "Pfx", "", "A b", "p.q", "Proj.", ".lead", "p..", " padded "])
         prefix_src = rng.choice(["cli", "sfile"])
         with runner.sandbox() as sb:
             pats = None
@@ -50,6 +50,12 @@ class Prop(BaseProp):
                 if c.auto and all(f in fs for f in c.tree.files_of("") if f.endswith(".cmake")):
                     c.tree.files["keeptop.cmake"] = cmake_text("keeptop.cmake")
                 res.count("subdirs_emptied_by_patterns")
+            if rng.random() < 0.06:
+                # a CMake-named entry that is a symbolic link to nothing: the run may fail (loudly) on it, but if it succeeds
+                # the toctrees are closed all the same
+                d_ = rng.choice(sorted(x for x in c.tree.dirs if x not in c.tree.virtual))
+                c.dangling = [os.path.join(d_, "ghost_link.cmake")]
+                res.count("trees_with_a_dangling_cmake_symlink")
             order = fsrun.make_order(rng, rng.choice(fsrun.ORDER_MODES[:4]))
             fscase.run_case(c, rng, sb, order, res, patterns=pats, allow_extra_input=False, prefix=prefix, prefix_src=prefix_src)
             res.see("prefix_kinds", "none" if prefix is None else "empty" if prefix == "" else prefix_src)
@@ -59,6 +65,9 @@ class Prop(BaseProp):
             res.nontrivial = c.recursive and len(c.ref.processed_dirs) >= 2
             o = c.fr.outcome
             if not o.ok:
+                if getattr(c, "dangling", None):
+                    res.count("runs_failing_loudly_on_a_dangling_symlink")
+                    return res
                 res.violate(o.crash_class() or f"exit:{o.exit_code}", str(o.exc)[:200], wit)
                 return res
             out = c.out_abs
